@@ -217,8 +217,14 @@ impl Read for SimReader {
     }
 }
 
+pub const SINK_KEEP: usize = 64 << 20;
+/// entries kept in the per-call logs of the sink (a job may make billions of calls)
+pub const LOG_KEEP: usize = 1 << 20;
+
 pub struct SimWriter {
     pub accepted: Vec<u8>,
+    pub overflow: crate::rng::Fnv,
+    pub overflow_bytes: u64,
     chunker: Chunker,
     intr: Interrupter,
     error_at: Option<u64>,
@@ -230,6 +236,8 @@ pub struct SimWriter {
 impl SimWriter {
     pub fn new(spec: &StreamSpec) -> SimWriter {
         SimWriter {
+            overflow: crate::rng::Fnv::new(),
+            overflow_bytes: 0,
             accepted: Vec::new(),
             chunker: Chunker::new(&spec.chunks),
             intr: Interrupter::new(&spec.eintr),
@@ -250,7 +258,9 @@ impl Write for SimWriter {
             return Ok(0);
         }
         if self.intr.fire() {
-            self.log.eintr_calls.push(callno);
+            if self.log.eintr_calls.len() < LOG_KEEP {
+                self.log.eintr_calls.push(callno);
+            }
             return Err(io::Error::new(ErrorKind::Interrupted, "simulated EINTR (write)"));
         }
         let mut avail = buf.len();
@@ -270,9 +280,19 @@ impl Write for SimWriter {
         if n < buf.len() {
             self.log.short += 1;
         }
-        self.log.chunks.push(n as u32);
+        if self.log.chunks.len() < LOG_KEEP {
+            self.log.chunks.push(n as u32);
+        }
         self.log.bytes += n as u64;
-        self.accepted.extend_from_slice(&buf[..n]);
+        // a real sink does not keep the output in memory: beyond 64 MiB only a digest of the rest is kept
+        // (appended to the kept head when the job ends), so that a builder emitting without end is a hang
+        // seen by the wall-clock backstop, not an allocation failure of the harness
+        if self.accepted.len() + n <= SINK_KEEP {
+            self.accepted.extend_from_slice(&buf[..n]);
+        } else {
+            self.overflow.write(&buf[..n]);
+            self.overflow_bytes += n as u64;
+        }
         Ok(n)
     }
     fn flush(&mut self) -> io::Result<()> {
